@@ -115,6 +115,8 @@ def main(tier):
                     what = f"{label}: torch._int_mm with in_features=1 and a transposed weight returns garbage (off by {st['at_diff']:.4g})"
                 ck.violation(what, {"case": cfg, "observed": st, "bound": bound})
 
+        if r.get("result_stable") is False:
+            ck.violation("the tensor returned by F.linear was overwritten by a later call with operands of the same shapes", {"case": cfg})
         judge(r, c["op"])
         for name, st in (r.get("routes") or {}).items():
             judge(st, "route " + name)
